@@ -94,6 +94,13 @@ SKELETONS = {
     "loopbody": "def f(a, b):\n    x = 0\n    while x < a:\n        x += 1\n        if x == b:\n            break\n    return x\n",
     "loopelse": "def f(a, b):\n    for i in range(a):\n        b += i\n    else:\n        b = 0\n    return b\n",
     "afterloop": "def f(a, b):\n    for i in range(a):\n        if i:\n            continue\n        b += i\n    b -= 1\n    while b:\n        b -= 1\n    return b\n",
+    # loop forms whose clauses a front end may treat specially: constant tests (the else clause can never run),
+    # destructuring targets, nested else clauses
+    "whiletrue_else": "def f(a, b):\n    while True:\n        a -= 1\n        if a < 0:\n            break\n    else:\n        b = 0\n    return b\n",
+    "while1_else_nested": "def f(a, b):\n    while 1:\n        for i in range(a):\n            b += i\n        else:\n            return b\n    else:\n        b = 1\n    return b\n",
+    "whilefalse_else": "def f(a, b):\n    while 0:\n        a -= 1\n    else:\n        b = 0\n    return b\n",
+    "for_tuple_else": "def f(a, b):\n    for i, (j, k) in enumerate(a):\n        b += j\n    else:\n        b = 0\n    for [p, q] in a:\n        b -= p\n    else:\n        b = 1\n    return b\n",
+    "if_constant": "def f(a, b):\n    if True:\n        b = 1\n    else:\n        b = 2\n    if 0:\n        a = 1\n    elif None:\n        a = 2\n    else:\n        a = 3\n    return b\n",
 }
 
 
